@@ -21,6 +21,7 @@ func init() {
 			c.ruleMergeReflect("R-MERGE-REFLECT")
 			c.ruleOneofMerge("R-ONEOF-MERGE")
 			c.ruleMapReplace("R-MAP-REPLACE")
+			c.ruleSingularMsgReuse("R-SINGULAR-MSG-REUSE", 4)
 		},
 	})
 }
